@@ -159,3 +159,9 @@ func init() {
 }
 
 var _ = fmt.Sprint
+
+func init() {
+	// the same closed system with a scheduling point after every lock release: the plain reads and
+	// writes a thread does right after leaving a critical section interleave with the other threads
+	register(&Scenario{Prop: "C03", Name: "c03/cuts-servecodec-unlock-points", Quick: []Bound{{1, 0}}, Thorough: []Bound{{2, 0}}, Body: c03Body(sysModes[:1], 5), UnlockPoints: true, BudgetQ: 30})
+}
